@@ -150,6 +150,21 @@ def match_fields(base, cur):
     return out
 
 
+def match_adts(base, cur):
+    """{new ADT path: baseline ADT path}: a type that moved to another module or was renamed keeps its variants and fields"""
+    missing = [a for a in base['adts'] if a not in cur['adts']]
+    new = [a for a in cur['adts'] if a not in base['adts']]
+    out = {}
+    shape = lambda vs: [(v['name'], [(n, re.sub(r'[\w:]+::', '', t)) for n, t in v['fields']]) for v in vs]
+    for m in missing:
+        c = [n for n in new if n not in out and shape(cur['adts'][n]) == shape(base['adts'][m])]
+        same_name = [n for n in c if n.split('::')[-1] == m.split('::')[-1]]
+        pick = same_name if len(same_name) == 1 else c
+        if len(pick) == 1:
+            out[pick[0]] = m
+    return out
+
+
 def normalise_text(text, cfg):
     """returns (json object, list of alias notes)"""
     j = json.loads(text)
@@ -160,6 +175,13 @@ def normalise_text(text, cfg):
         base = json.load(fh)
     cur = summarize(j)
     notes = []
+    aa = match_adts(base, cur)
+    if aa:
+        for new, old in sorted(aa.items(), key=lambda kv: -len(kv[0])):
+            text = re.sub(r'(?<![\w:])' + re.escape(new) + r'(?![\w])', old.replace('\\', '\\\\'), text)
+            notes.append(f"type {new} is the baseline's {old} (same variants and fields)")
+        j = json.loads(text)
+        cur = summarize(j)
     fa = match_functions(base, cur)
     if fa:
         for new, old in sorted(fa.items(), key=lambda kv: -len(kv[0])):
